@@ -344,11 +344,14 @@ Definition trunc_sample (s : sample) : sample := mkSample (inject_Z (qtrunc (sm_
 Definition IX_PREVIEW := 2%nat.
 (* the chart a written text must denote: [c] with note / sample / preview times truncated, Title / Artist replaced
    by their transliteration (oracle), text attributes without surrounding blanks, SV metronome dropped *)
-Definition written_chart (c : chart) (ut ua : text) : chart :=
+Definition written_chart_raw (c : chart) (ut ua : text) : chart :=
   mkChart (set_nth (set_nth (set_nth (c_meta c) IX_PREVIEW (MNum (inject_Z (qtrunc (meta_num (c_meta c) IX_PREVIEW)))))
                             IX_TITLE (MStr (strip ut))) IX_ARTIST (MStr (strip ua)))
           (c_bg c) (map trunc_sample (c_samples c)) (c_bpms c) (c_svs c)
           (map (trunc_note false) (c_hits c)) (map (trunc_note true) (c_holds c)).
+
+(* the writer keeps a transliteration on one line: line feeds become blanks (repo commit fde22cd) *)
+Definition written_chart (c : chart) (ut ua : text) : chart := written_chart_raw c (one_line ut) (one_line ua).
 
 Definition all_present (d : dchart) : bool :=
   forallb (fun o => match o with Some _ => true | None => false end) (d_meta d)
@@ -511,8 +514,9 @@ Definition wn_numbers (c : chart) : list Q :=
 Definition wi_numbers (c : chart) : list Q := map (meta_num (c_meta c)) [1; 6; 11; 12; 22; 23]%nat.
 
 (* the whole-file write theorems need in addition: attribute kinds, integral values of the int-typed attributes
-   printed by str / ':g' (PreviewTime is int()-truncated like every time), and transliterations without a line
-   feed (unidecode maps U+2028 / U+2029 to line feeds: see write_title_linefeed_refuted) *)
+   printed by str / ':g' (PreviewTime is int()-truncated like every time).  Nothing is demanded of the transliterations
+   ut / ua any more: since repo commit fde22cd the writer replaces their line feeds by blanks (unidecode maps U+2028 /
+   U+2029 to line feeds: see write_title_linefeed_OLD_refuted / _current); the arguments are kept for interface stability *)
 Definition write_domain (c : chart) (ut ua : text) : bool :=
-  wf_chart c && kinds_ok key_table (c_meta c) && forallb is_integral (wi_numbers c) && negb (has 10 ut) && negb (has 10 ua) && negb (has 13 ut) && negb (has 13 ua).
+  wf_chart c && kinds_ok key_table (c_meta c) && forallb is_integral (wi_numbers c).
 
